@@ -563,18 +563,18 @@ Proof.
   intros G. induction ops as [|[i s] ops IH]; intros fd fd' HC A.
   - inversion A. now subst.
   - cbn [apply_mapfile_ops] in A.
-    destruct (define_flag_from_mapfile fd i s) as [fd1| | |] eqn:D; try discriminate. cbn [obind] in A.
+    destruct (define_flag_from_mapfile fd i s) as [fd1| | |] eqn:D; try discriminate A. cbn [obind] in A.
     apply (IH fd1 fd'); [|exact A].
     unfold define_flag_from_mapfile in D.
-    destruct (negb _) in D; [discriminate|].
-    destruct s as [|c [|pm [|]]]; try discriminate.
-    destruct (negb _) in D; [discriminate|]. destruct (negb _) in D; [discriminate|].
+    destruct (negb _) in D; [discriminate D|].
+    destruct s as [|c [|pm [|]]]; try discriminate D.
+    destruct (negb _) in D; [discriminate D|]. destruct (negb _) in D; [discriminate D|].
     unfold repoint_guard in D. rewrite G in D. cbn [andb] in D.
     destruct (pm =? CH_MINUS)%N.
-    { destruct (no_repointb fd c (Z.to_nat i)) eqn:NR; cbn [negb] in D; [|discriminate].
+    { destruct (no_repointb fd c (Z.to_nat i)) eqn:NR; cbn [negb] in D; [|discriminate D].
       apply (define_preserves_consistent fd c (Z.to_nat i) false); [exact HC|now apply no_repointb_sound|exact D]. }
-    destruct (pm =? CH_PLUS)%N; [|discriminate].
-    destruct (no_repointb fd c (Z.to_nat i)) eqn:NR; cbn [negb] in D; [|discriminate].
+    destruct (pm =? CH_PLUS)%N; [|discriminate D].
+    destruct (no_repointb fd c (Z.to_nat i)) eqn:NR; cbn [negb] in D; [|discriminate D].
     apply (define_preserves_consistent fd c (Z.to_nat i) true); [exact HC|now apply no_repointb_sound|exact D].
 Qed.
 
@@ -594,10 +594,10 @@ Lemma label_roundtrip_all_defs_refuted : gen_repoint_check = false ->
   exists fd0 fd m s, default_defs = Ok fd0 /\ apply_mapfile_ops fd0 dup_ops = Ok fd /\ (m <= 255)%N /\
     mask_to_label fd m = Ok s /\ parse_label fd s <> Ok m.
 Proof.
-  intros G. first [ vm_compute in G; discriminate G | idtac ].
-  eexists. eexists. exists 1%N, [69%N].
-  split; [vm_compute; reflexivity|]. split; [vm_compute; reflexivity|]. split; [lia|].
-  split; [vm_compute; reflexivity|]. vm_compute. discriminate.
+  intros G. first [ vm_compute in G; discriminate G
+                  | eexists; eexists; exists 1%N, [69%N];
+                    (split; [vm_compute; reflexivity|]); (split; [vm_compute; reflexivity|]); (split; [lia|]);
+                    (split; [vm_compute; reflexivity|]); vm_compute; intros X; discriminate X ].
 Qed.
 
 (* nested switches: the copy that applies on difficulty 1 carries the value of difficulty 0 *)
@@ -608,8 +608,8 @@ Lemma elaborate_nested_refuted : gen_nested_meta = false ->
   exists fd copies, default_defs = Ok fd /\ elaborate fd 255 [nested_arg] = Ok copies /\
     filter (fun c => bit (fst c) 1) copies = [(15%N, [1%Z])] /\ meaning nested_arg 1 = Ok 2%Z.
 Proof.
-  intros G. first [ vm_compute in G; discriminate G | idtac ].
-  eexists. eexists. split; [vm_compute; reflexivity|]. split; [vm_compute; reflexivity|]. split; vm_compute; reflexivity.
+  intros G. first [ vm_compute in G; discriminate G
+                  | eexists; eexists; (split; [vm_compute; reflexivity|]); (split; [vm_compute; reflexivity|]); split; vm_compute; reflexivity ].
 Qed.
 
 (* with the fix (gen_nested_meta) the nested statement of the witness is elaborated as it means *)
@@ -617,6 +617,5 @@ Lemma elaborate_nested_fixed_example : gen_nested_meta = true ->
   exists fd, default_defs = Ok fd /\
     elaborate fd 255 [nested_arg] = Ok [(1%N, [1%Z]); (2%N, [2%Z]); (4%N, [3%Z]); (8%N, [4%Z])].
 Proof.
-  intros G. first [ vm_compute in G; discriminate G | idtac ].
-  eexists. split; vm_compute; reflexivity.
+  intros G. first [ vm_compute in G; discriminate G | eexists; split; vm_compute; reflexivity ].
 Qed.
